@@ -295,7 +295,7 @@ SUPER_POOL = ['G', 'H', 'J', 'Grp', 'Outer', 'Inner', 'Flight', 'Mode2', 'Sub', 
 EVENT_POOL = ['go', 'stop', 'tick', 'enter_half_open', 'http_request', 'e1', 'reset', 'a_1', 'set_thrust',
               'launch', 'x', 'step2', 'io_done', 'next', 'abort', 'b2b', 'enable_2fa', 'x_y', 'step_2', 'go_2_x',
               'send_3ds_challenge', 'a_b_c']
-NAME_POOL = ['M', 'Machine1', 'FlightDeck', 'HTTPClient', 'Sm', 'Ctl']
+NAME_POOL = ['M', 'Machine1', 'FlightDeck', 'HTTPClient', 'Sm', 'Ctl', 'LinkState', 'DoorEvent', 'AnyThing', 'DynamicDuo', 'StateOf', 'EventLog', 'Any', 'Dynamic']
 DATA_TYPES = ['D0', 'D1', 'D2', 'D3']
 
 
@@ -336,6 +336,7 @@ class Shape:
         self.payload = kw.get('payload', 'mixed')  # none | all | mixed
         self.super_data = kw.get('super_data', False)
         self.cross_kind = kw.get('cross_kind', False)   # a guard also used as an unless-condition (K1 only: one hook, two roles)
+        self.ctx_ty = kw.get('ctx_ty', 'Ctx')           # spelling of the concrete context type (K1 only: `()`, `u8`, a path)
         self.hook_event = kw.get('hook_event', False)   # a hook named like an event of the machine (K1 only: with hooks in the
                                                         # blanket impl rustc rejects the clash; the expansion must not care)
 
@@ -454,6 +455,10 @@ def gen_wellformed(rnd, shape, idx=0):
                         # some hook identifiers are not snake_case (`g0_e1OK`): errors must report them as declared
                         hs.append('%s%d_%s%d%s' % ({'guards': 'g', 'unless': 'u', 'before': 'b', 'after': 'a', 'around': 'w'}[k], ei, level, hook_ctr[0],
                                                    rnd.choice(['', '', '', 'OK', 'GPSLock'])))
+                if rnd.random() < 0.12:
+                    # the key written twice in one block: the earlier list is overridden (and its hooks never called)
+                    hook_ctr[0] += 1
+                    out.append(('list', k, ['%s%d_%s%dx' % (k[0], ei, level, hook_ctr[0])] + (hs[:1] if rnd.random() < 0.5 else [])))
                 out.append(('list', k, hs))
                 if level == 'e':
                     ev_level[k] = list(hs)
@@ -484,7 +489,7 @@ def gen_wellformed(rnd, shape, idx=0):
         events.append((en, body))
     d = [('name', rnd.choice(NAME_POOL) if idx < 0 else 'M'), ('initial', initial)]
     if shape.concrete:
-        d.append(('context', 'Ctx'))
+        d.append(('context', shape.ctx_ty))
     if shape.async_:
         d.append(('async', True))
     elif rnd.random() < 0.25:
